@@ -63,7 +63,8 @@ type Task struct {
 	parked bool
 	at     string
 	noPark int
-	quiet  int // >0: holds a mutex or runs inside a sync.Once (instrumented build): no auto parks
+	quiet  int // >0: holds a mutex (instrumented build): no automatic parks at all
+	quietO int // >0: runs inside a sync.Once.Do: no automatic parks except race-directed ones
 	hold   int
 	drain  bool
 	prio   int
@@ -198,7 +199,8 @@ func Yield(site string) {
 		return
 	}
 	auto := strings.HasPrefix(site, "auto:")
-	if auto && !s.cfg.Auto && len(site) > 6 {
+	forced := strings.HasPrefix(site, "auto!:") // race-directed: at a statement the race detector named
+	if auto && !s.cfg.Auto && len(site) > 7 {
 		return
 	}
 	t := s.lookup()
@@ -216,10 +218,21 @@ func Yield(site string) {
 				t.quiet--
 			}
 			return
-		}
-		if t.quiet > 0 {
+		case "auto:o+":
+			t.quietO++
+			return
+		case "auto:o-":
+			if t.quietO > 0 {
+				t.quietO--
+			}
 			return
 		}
+		if t.quiet > 0 || t.quietO > 0 {
+			return
+		}
+	}
+	if forced && t.quiet > 0 {
+		return
 	}
 	if t.noPark > 0 {
 		return
